@@ -171,5 +171,17 @@ def run(chk, tier):
     chk.trusted_base = ["clang 14 front end (constant evaluation of _Static_assert, type compatibility of re-declarations)",
                         "the repo's own perl generators", "GNU as/ld semantics of .symver and version scripts",
                         "oracles/released_abi.json (witnessed against /usr/include/crypt.h)"]
+    # encrypt*/setkey* have no modern counterpart: their behaviour is the released one iff they hand the unchanged block,
+    # key and direction (edflag != 0) to the DES worker with salt 0 and count 1 (C17's sibling rule, imported)
+    from . import c17
+    from ..report import Check
+    sub = Check("C20", tier)
+    sub.known = {}
+    c17.run(sub, tier)
+    chk.rule("R-COMPAT-DES", "compat-only encrypt/encrypt_r/setkey/setkey_r pass block, key and direction (edflag != 0) unchanged to the DES worker (imported from C17)")
+    for v in sub.violations:
+        if v["rule"] in ("R-DES-SIBLINGS", "R-DES-STATE"):
+            chk.fail("R-COMPAT-DES", v["instance"], v["message"], v["loc"], v["detail"])
+    chk.count("R-COMPAT-DES", sub.rules.get("R-DES-SIBLINGS", {"ok": 0})["ok"] + sub.rules.get("R-DES-STATE", {"ok": 0})["ok"], ["des-obsolete"])
     chk.assumptions += ["x86-64 SysV data layout (the pinned target)",
                         "behavioural identity of compat names is by symbol identity; setkey/encrypt behaviour is under C17"]
